@@ -26,6 +26,7 @@ import HSModel.Props.C09
 import HSModel.Props.C10
 import HSModel.Proofs.FaultMeta
 import HSModel.Proofs.OkStore
+import HSModel.Proofs.OkDelete
 namespace HS.C13
 variable (cfg : Config) (o : Oracle)
 
@@ -75,6 +76,12 @@ theorem store_object_success_means_bound (pid : SArg) (data : DataArg) (addition
       m.cid = o.dig cfg.alg t ∧ m.size = o.size t ∧
       w'.st.pidRefs.get (o.hId p) = some m.cid ∧ ∃ x, w'.st.cidRefs.get m.cid = some x ∧ inRefs p x = true :=
   store_ok_inv cfg o pid data additional checksum csAlg expSize hnone w w' v h
+
+/-- `delete_object(pid)` under any fault plan, from any store and any lock
+    state: **a normal return means the pid has no pid reference any more** -/
+theorem delete_object_success_means_unbound (p : Str) (w w' : World) (v : Val)
+    (h : Prog.run (deleteObject cfg o (.str p)) w = (.ok v, w')) : w'.st.pidRefs.get (o.hId p) = none :=
+  delete_ok_inv cfg o p w w' v h
 
 /-- a one-off plan that has fired never fails another primitive -/
 theorem one_off_fires_once (f : Fault) (e : Ev) (hf : f.fired = true) (hp : f.persistent = false) :
